@@ -257,10 +257,10 @@ func findNextNodeAfterComment(file *ast.File, commentPos token.Pos) token.Pos {
 	}
 
 	// Comment is inside this declaration - find the next node after comment
-	var nextPos = token.NoPos
+	var nextEnd = token.NoPos
 
 	ast.Inspect(decl, func(n ast.Node) bool {
-		if n == nil {
+		if n == nil || nextEnd != token.NoPos {
 			return false
 		}
 
@@ -269,15 +269,11 @@ func findNextNodeAfterComment(file *ast.File, commentPos token.Pos) token.Pos {
 			return true
 		}
 
-		// Found a node after comment
-		if nextPos == token.NoPos || n.Pos() < nextPos {
-			nextPos = n.Pos()
-			// Stop searching once we found the first node
-			return false
-		}
-
-		return true
+		// The first node that starts after the comment is the statement the comment
+		// stands before: the scope covers that whole statement, not just its first token
+		nextEnd = n.End()
+		return false
 	})
 
-	return nextPos
+	return nextEnd
 }
